@@ -163,11 +163,12 @@ func Load(extraEnv []string, tags string) *Ctx {
 	}
 	c.loadS = time.Since(t0).Seconds()
 	t1 := time.Now()
-	prog, _ := ssautil.AllPackages(pkgs, ssa.BuilderMode(0))
+	prog, _ := ssautil.AllPackages(pkgs, ssa.InstantiateGenerics)
 	prog.Build()
 	c.Prog = prog
 	c.ssaS = time.Since(t1).Seconds()
 	gCtx = c
+	sfCtx = c
 	return c
 }
 
@@ -318,8 +319,8 @@ func (c *Ctx) MethodMaybe(rel, recv, name string) *ssa.Function {
 		for i := 0; i < ms.Len(); i++ {
 			sel := ms.At(i)
 			if sel.Obj().Name() == name && len(sel.Index()) == 1 {
-				if fn := c.Prog.MethodValue(sel); fn != nil && fn.Synthetic == "" {
-					return fn
+				if fn := c.Prog.MethodValue(sel); fn != nil && (fn.Synthetic == "" || len(fn.TypeArgs()) > 0) {
+					return fn // declared method, or the instantiation of a generic type's method
 				}
 				// declared with the other receiver kind: find the declared function
 				if f, ok := sel.Obj().(*types.Func); ok {
@@ -407,12 +408,62 @@ func isModFunc(f *ssa.Function) bool {
 	return false
 }
 
+// aliasRecvName: f is a method of an instantiated generic type that the package
+// also names through a type alias (type certLookup = lookup[*CertificateLint]):
+// the method's printed name under that alias, "(*pkg.certLookup).m". This is how
+// a de-duplication of sibling types into one generic type keeps the old names.
+var aliasRecvMemo = map[*ssa.Function]string{}
+
+func aliasRecvName(f *ssa.Function) string {
+	if s, ok := aliasRecvMemo[f]; ok {
+		return s
+	}
+	out := ""
+	defer func() { aliasRecvMemo[f] = out }()
+	if f == nil || f.Signature.Recv() == nil || f.Parent() != nil {
+		return out
+	}
+	rt := f.Signature.Recv().Type()
+	ptr := false
+	if p, ok := rt.(*types.Pointer); ok {
+		rt, ptr = p.Elem(), true
+	}
+	named, ok := rt.(*types.Named)
+	if !ok || named.TypeArgs() == nil || named.TypeArgs().Len() == 0 || named.Obj().Pkg() == nil {
+		return out
+	}
+	sc := named.Obj().Pkg().Scope()
+	var hits []string
+	for _, n := range sc.Names() {
+		if tn, ok := sc.Lookup(n).(*types.TypeName); ok && tn.IsAlias() && types.Identical(types.Unalias(tn.Type()), named) {
+			hits = append(hits, n)
+		}
+	}
+	if len(hits) != 1 {
+		return out
+	}
+	recv := named.Obj().Pkg().Path() + "." + hits[0]
+	mname := f.Name()
+	if o := f.Origin(); o != nil {
+		mname = o.Name() // without the "[type arguments]" suffix of the instance
+	}
+	if ptr {
+		out = "(*" + recv + ")." + mname
+	} else {
+		out = "(" + recv + ")." + mname
+	}
+	return out
+}
+
 // fname gives a stable human-readable name of a function.
 func fname(f *ssa.Function) string {
 	if f == nil {
 		return "<nil>"
 	}
 	s := f.String()
+	if a := aliasRecvName(f); a != "" {
+		s = a
+	}
 	s = strings.ReplaceAll(s, modPath+"/", "")
 	s = strings.ReplaceAll(s, modPath, "zlint")
 	if old := aliasedBase(f); old != "" {
